@@ -1,6 +1,10 @@
 //! One module per property.
 use crate::common::Property;
 
+pub mod c03;
+pub mod c04;
+pub mod c11;
+
 pub fn all() -> Vec<Box<dyn Property>> {
-    vec![]
+    vec![Box::new(c03::C03), Box::new(c04::C04), Box::new(c11::C11)]
 }
